@@ -189,7 +189,28 @@ def shards(tier):
         for seed in (5, 1):
             sh.append(("shard_drg", (r, seed)))
     sh.append(("shard_involution", None))
+    sh.append(("shard_drg_sizes", None))
     return sh
+
+
+def shard_drg_sizes(_, tier):
+    """every request size 0..=140 through fill_slice (prior content FF.. and pattern), fresh and after a u32 (cursor at 4): every
+    residue of the size modulo 8/16/64 at two cursor alignments; bytes<N> / fill_bytes<N> for every instantiated N"""
+    ck = core.Checker(PROPERTY_ID)
+    cases = []
+    for rounds in (8, 12, 20):
+        model = stream.Stream("chacha", rounds, pat(5, 0, 32), bytes(12))
+        new = "drgnew s0 %d %s" % (rounds, P(5, 0, 32))
+        for n in range(0, 141):
+            for prior in (1, 5):
+                exp = obs_of(model.keystream(0, 0, n))
+                cases.append(([new, "drg_fill_slice s0 %s" % (P(prior, 7, n) if n else "h:")], ["-", exp], {"n": n}))
+                exp4 = obs_of(model.keystream(0, 4, n))
+                cases.append(([new, "drg_u32 s0", "drg_fill_slice s0 %s" % (P(prior, 7, n) if n else "h:"), "drg_u64 s0"],
+                              ["-", str(int.from_bytes(model.keystream(0, 0, 4), "big")), exp4, str(int.from_bytes(model.keystream((4 + n) // 64, (4 + n) % 64, 8), "big"))], {"n": n}))
+    ck.run(cases, nontrivial=_nt)
+    ck.stats.states += len(cases)
+    return ck.stats
 
 
 def _mk(ck):
